@@ -32,8 +32,20 @@ def full_game(values: Sequence[float], comp=None) -> IncompleteCooperativeGame:
     return g
 
 
+_ORDER = [0]
+
+
 def set_knowledge(game: IncompleteCooperativeGame, values: Sequence[float], K: Iterable[int]) -> None:
+    """Bulk reset to exactly K.  The coalitions are handed over in varying ORDER (ascending, descending, rotated): the
+    result must not depend on it."""
     K = list(K)
+    _ORDER[0] += 1
+    mode = _ORDER[0] % 3
+    if mode == 1:
+        K = K[::-1]
+    elif mode == 2 and len(K) > 2:
+        cut = (_ORDER[0] * 7) % len(K)
+        K = K[cut:] + K[:cut]
     game.set_known_values([values[m] for m in K], [Coalition(m) for m in K])
 
 
